@@ -2,3 +2,4 @@ package sim
 
 // scenario parts of the other families (defined in their own files as they are built)
 type AdmScen struct{}
+// touch
